@@ -162,6 +162,7 @@ func newContainerPool() []sx.Sexp {
 	tp := typePool()
 	return []sx.Sexp{
 		vo("Verif::Unit"), vo("Verif::One", vs("v"), vi(1)), vo("Verif::Pair", vs("a"), vi(1), vs("b"), vs("x")),
+		vo("", vs("a"), vi(1)), vo("", vs("a"), va(vi(1), vi(2)), vs("b"), vs("x")), va(vi(1), vo("", vs("a"), vi(1), vs("b"), vo("", vs("a"), vu))),
 		vo("Verif::Pair", vs("a"), va(vi(1), vi(2)), vs("b"), vh(vs("k"), vv("1.0.0"))), vo("Verif::One", vs("v"), vo("Verif::One", vs("v"), vu)),
 		vo("Verif::Pair", vs("a"), tp[1], vs("b"), vn(1500000000)),
 		va(vv("1.2.3-rc1+b5"), vw("1.x", ">=1.0.0 <2.0.0"), vy("http://example.com"), vn(90061500000000), vm(1500000000, 123456789), vz(vs("s")), tp[1]),
@@ -291,6 +292,10 @@ func scalarModelled(e sx.Sexp, d dir) bool {
 }
 
 func modelled(e sx.Sexp, m []entry, entryMode bool) bool {
+	if !entryMode && e.Tag() == "o" && e.Args()[0].MustStr() == "" {
+		// an instance of an anonymous object type is written as the Hash of its init hash
+		return modelled(sx.T("h", e.Args()[1:]...), m, false)
+	}
 	tag := e.Tag()
 	if tag == "t" && !entryMode {
 		// the parameters are formatted as an Array under the same map
